@@ -68,6 +68,7 @@ def run(ctx):
         violations.append({"replay": rp, "no_input": True})
     else:
         nbad = 0
+        divergent_lines = []
         for l, e, m in zip(lines, eng, mod):
             classes["panic" if e[0] == 1 else "err" if e[0] == 0 else "ok"] += 1
             if e[0] == 1:
@@ -79,8 +80,13 @@ def run(ctx):
             elif e != m:
                 nbad += 1
                 if nbad <= 3:
-                    rp = C.write_replay(prop, {"kind": "parser result differs from the model", "line": l, "engine": e, "model": m})
-                    violations.append({"replay": rp})
+                    # WHICH lines are accepted is not fixed by the property (a parser that learns a new command still satisfies it):
+                    # a correspondence; liveness on this very line is judged over the pipe below
+                    rp = C.write_replay(prop, {"kind": "parser result differs from the model", "line": l, "engine": e, "model": m,
+                                               "broken": "correspondence engine parser = model/Uci.v parser (C15_parse_total and C15_step_total are about the "
+                                                         "model); the engine did not panic on the line; liveness is judged on the real process by the session legs"})
+                    violations.append({"replay": rp, "no_input": True})
+                    divergent_lines.append(l)
         cov["parse_lines"] = len(lines)
         cov["parse_exhaustive_short_sequences"] = exhaustive_n
         cov["parse_classes"] = classes
